@@ -204,7 +204,8 @@ DoRS(override) ==
              /\ lp' = IF override THEN lp ELSE lp + 1
              /\ step' = s
              /\ opi' = opi + 1
-             /\ UNCHANGED <<tid, supss, err, fin>>
+             /\ supss' = [supss EXCEPT !.seq = @ + 1]     \* the supervisor's step state carries seq + 1 after its step
+             /\ UNCHANGED <<tid, err, fin>>
 
 (* ---- completion: the record in aux['record'] (C13) and the final abstract state (C09) ---------- *)
 RecErr ==
@@ -229,7 +230,7 @@ FinalErr ==
   ELSE IF "final" \in DOMAIN T /\ \E k \in DOMAIN T.final.h : T.final.h[k] # hcur[k]
        THEN Err("FinalNodeState", <<>>, hcur, T.final.h)
   ELSE IF "final" \in DOMAIN T /\ \E k \in DOMAIN T.final.seq : T.final.seq[k] # NA /\ nexec[k] > 0 /\
-             T.final.seq[k] # (CHOOSE m \in DOMAIN exec[k] : \A m2 \in DOMAIN exec[k] : m >= m2) + 1
+             T.final.seq[k] # (IF k = T.sup THEN supss.seq ELSE (CHOOSE m \in DOMAIN exec[k] : \A m2 \in DOMAIN exec[k] : m >= m2) + 1)
        THEN Err("FinalSeq", <<>>, exec, T.final.seq)
   ELSE RecErr
 
